@@ -189,6 +189,13 @@ def check_alternatives(ck, key, ev, spec_src, spec_pos, D0, D1, site, swap=False
                     X, cases = x, [int(y.const_value())]
                 elif atom_fn(a) == "eq" and (x.const_value() in (0, 1) if isinstance(x, Poly) else False):
                     X, cases = y, [int(x.const_value())]
+            if cases is None and a and atom_fn(a) in ("le", "lt") and len(atom_args(a)) == 2:
+                # `len <= columns` (or `len < 2*columns`): with the asserted divisibility this means at most one row
+                x, y = atom_args(a)
+                Cdim = D1 if not swap else D0
+                Rdim = D0 if not swap else D1
+                if x == var("len") and ((atom_fn(a) == "le" and y == Cdim) or (atom_fn(a) == "lt" and y == num(2) * Cdim)):
+                    X, cases = Rdim, [0, 1]
             if cases is None or single_atom(X) is None:
                 raise AnalysisError("%s: early-return condition %r is outside the modelled shapes" % (key, d))
             xa = single_atom(X)
